@@ -1,5 +1,6 @@
 import Driver.Proto
 import MesonModel.DepPolicy.Model
+import MesonModel.DepPolicy.Policy
 import MesonModel.Version.Model
 import MesonModel.DepPolicy.Wrap
 /- driver commands of area `dep`:
@@ -183,12 +184,21 @@ def handleWrap (cfg env faults : String) : String :=
 
 end W
 
+def showPOut : POutcome → String
+  | .found d => "found:" ++ encodeStr d.ident
+  | .notFound => "notfound"
+  | .error => "error"
+
 def handle (cmd : String) (fs : List String) : String :=
   match cmd, fs with
   | "seq", [wm, fff, ov, ca, sy, pr, sp, reqs] =>
     let w := parseWorld wm fff ov ca sy pr sp
     let rs := (splitNE "#" reqs).filterMap parseReq
     "#".intercalate ((lookupSeq sat w rs).map showRes)
+  | "pol", [wm, fff, ov, ca, sy, pr, sp, reqs] =>
+    let w := parseWorld wm fff ov ca sy pr sp
+    let rs := (splitNE "#" reqs).filterMap parseReq
+    "#".intercalate ((policySeq sat w rs).map (fun p => showPOut p.1 ++ "~" ++ showWorld p.2))
   | "wrap", [cfg, env, faults] => W.handleWrap cfg env faults
   | _, _ => "bad-op"
 
